@@ -1,6 +1,6 @@
 (* Extract_dflt.v -- extraction of the dflt slice (Tree + Implicit + WithDefaults) to coq/model_dflt.ml *)
 From Coq Require Extraction ExtrOcamlBasic.
-From LY Require Import Base Tree Implicit WithDefaults.
+From LY Require Import Base Tree Implicit WithDefaults WhenRes.
 Extraction Language OCaml.
 Extraction "model_dflt.ml"
   N.add N.mul N.div N.modulo N.sub Z.add Z.mul Z.opp Z.of_N Z.abs_N Z.sub Z.ltb
@@ -10,4 +10,5 @@ Extraction "model_dflt.ml"
   Implicit.normalb Implicit.norm_snode Implicit.norm_level Implicit.cases_okb Implicit.active Implicit.schildren Implicit.is_inner
   Implicit.is_dflt_of Implicit.is_expl_of Implicit.apply_changes Implicit.np_norm Implicit.np_flagsb Implicit.strip Implicit.changes_idb Implicit.apply_changes_all
   WithDefaults.wd_print_forest WithDefaults.rfc_view_forest WithDefaults.should_print
-  WithDefaults.wd_wf_forest WithDefaults.is_default_val WithDefaults.rfc_holds_default WithDefaults.is_termnode Implicit.flag_soundb Implicit.chc_okb Implicit.sids_uniqb Implicit.keys_plainb Implicit.editedb Implicit.freshb.
+  WithDefaults.wd_wf_forest WithDefaults.is_default_val WithDefaults.rfc_holds_default WithDefaults.is_termnode Implicit.flag_soundb Implicit.chc_okb Implicit.sids_uniqb Implicit.keys_plainb Implicit.editedb Implicit.freshb
+  WhenRes.wrun WhenRes.acyclicb.
